@@ -60,6 +60,9 @@ def op_strategy(files, generated=()):
         f.map(lambda p: {"k": "bc", "f": p}),
         f.map(lambda p: {"k": "stdbc", "f": p}),
         f.map(lambda p: {"k": "labels", "f": p}),
+        f.map(lambda p: {"k": "lines2", "f": p}),
+        st.tuples(st.sampled_from(["3.10.17", "3.8.99", "2.7.19", "3.6.20", "3.10", "3.8", "2.7"]),
+                  st.sampled_from([None, "pypy", ""])).map(lambda p: {"k": "opcmod", "v": p[0], "variant": p[1]}),
         f.map(lambda p: {"k": "showcode", "f": p}),
         small.map(lambda v: {"k": "mdumps", "value": v}),
         st.tuples(small, st.sampled_from([0, 1])).map(lambda p: {"k": "mloads", "value": p[0], "ver": p[1]}),
@@ -192,6 +195,9 @@ class C18:
             res.fail("C18|%s|differs-from-fresh-process|%s" % (op["k"], self.blame(ops[:i])),
                      "step %d %s: after %d earlier operations the result is %s; first thing in a fresh process: %s (history: %s)" % (
                          i, self.short(op), i, json.dumps(got)[:200], json.dumps(exp)[:200], prev[:8]))
+        if isinstance(got, dict) and "first" in got and "second" in got and got["first"] != got["second"]:
+            res.fail("C18|%s|second-answer-differs" % op["k"], "step %d %s: the same loaded code objects give other line starts the second time they are asked" % (
+                i, self.short(op)))
         again = w.call("x_do", do=op)["result"]
         if again != got:
             res.fail("C18|%s|repeat-differs" % op["k"], "step %d %s: repeating the call gives %s then %s" % (
